@@ -35,8 +35,8 @@ claimed = {
              ref="6/C04", note=NOTE + "Outside: BIP68 time-based locks, blocks larger than the bound, the UTXO database commit itself. "),
  "C05": dict(text="Bounded model checking of header/structure rules, each against a transcription of Bitcoin Core's rule: median-time-past over 1..11 ancestors, PreCheckBlock acceptance (PoW verdict, required bits, "
                   "time-too-old / time-too-new with a symbolic clock, signed version gating, height/MTP bookkeeping), unknown-parent handling, verification-flag schedule, BIP34 height prefix for every uint32, "
-                  "IsFinalTx, Merkle root and the CVE-2012-2459 mutation flag for up to 5 (8) symbolic leaves, compact-target decoding (SetCompact: negative, overflow, zero) for every 32-bit value, compact encoding (GetCompact) for every value up to 32 bytes, the hash <= target comparison, difficulty retargeting (four parent heights x six parent targets x arbitrary period timestamps) against pow.cpp, and the BIP141 witness commitment rule of PostCheckBlock.",
-             ref="6/C05", note=NOTE + "Testnet difficulty rules, the weight limit and the coinbase script length are not covered; PoW and required-bits are stubs with arbitrary results in PreCheckBlock. "),
+                  "IsFinalTx, Merkle root and the CVE-2012-2459 mutation flag for up to 5 (8) symbolic leaves, compact-target decoding (SetCompact: negative, overflow, zero) for every 32-bit value, compact encoding (GetCompact) for every value up to 32 bytes, the hash <= target comparison, difficulty retargeting (four parent heights x six parent targets x arbitrary period timestamps) against pow.cpp, the BIP141 witness commitment rule and the coinbase rules (first and only coinbase, script length 2..100, BIP34 height push) of PostCheckBlock.",
+             ref="6/C05", note=NOTE + "Testnet difficulty rules and the weight limit are not covered; PoW and required-bits are stubs with arbitrary results in PreCheckBlock. "),
  "C10": dict(text="Bounded model checking of the UTXO record codecs: serialize -> parse and single-output lookup round trips in the plain and the compressed format for records of 1..3 output slots "
                   "(each present or spent), scripts from eight families (arbitrary short, P2PKH/P2SH/compressed-P2PK templates with symbolic payload, same-length near misses, CompactSize-boundary lengths), symbolic txid/height/flags/values.",
              ref="6/C10", note=NOTE + "Outside: snapshot file I/O, uncompressed-key P2PK compression (curve arithmetic), more than 3 outputs. "),
